@@ -751,3 +751,53 @@ Proof.
     + injection H as ->. exact (parse_layout_day l s t P).
     + exact (IH s t H).
 Qed.
+
+(* ---------------------------------------------------------------- the ORDER of the key chain does
+   not matter: two key tables that are the same finite map decode every file alike *)
+Lemma step_line_ext : forall a b fmts kv st l,
+  (forall k, assoc_key k a = assoc_key k b) -> step_line a fmts kv st l = step_line b fmts kv st l.
+Proof.
+  intros a b fmts kv st l H. unfold step_line. destruct (split_on kv l) as [|p0 rest]; [reflexivity|].
+  rewrite (H p0). reflexivity.
+Qed.
+
+Lemma fold_lines_ext : forall a b fmts kv, (forall k, assoc_key k a = assoc_key k b) ->
+  forall ls st, fold_lines a fmts kv ls st = fold_lines b fmts kv ls st.
+Proof.
+  intros a b fmts kv H. induction ls as [|l r IH]; intros st; [reflexivity|].
+  cbn [fold_lines]. rewrite (step_line_ext a b fmts kv st l H).
+  destruct (step_line b fmts kv st l); [apply IH|reflexivity|reflexivity].
+Qed.
+
+Lemma decode_interval_ext : forall a b fmts ls kv data, (forall k, assoc_key k a = assoc_key k b) ->
+  decode_interval a fmts ls kv data = decode_interval b fmts ls kv data.
+Proof. intros. unfold decode_interval. apply fold_lines_ext. assumption. Qed.
+
+Definition field_eq_optb (x y : option field) : bool :=
+  match x, y with Some f, Some g => field_eqb f g | None, None => true | _, _ => false end.
+
+Definition same_mapb (a b : list (string * field)) : bool :=
+  forallb (fun p => field_eq_optb (assoc_key (fst p) b) (Some (snd p))) a &&
+  forallb (fun p => field_eq_optb (assoc_key (fst p) a) (Some (snd p))) b.
+
+Lemma field_eqb_eq : forall f g, field_eqb f g = true -> f = g.
+Proof. intros [] []; cbn; intros H; try reflexivity; discriminate. Qed.
+
+Lemma assoc_key_in : forall k l f, assoc_key k l = Some f -> In (k, f) l.
+Proof.
+  intros k. induction l as [|[k' f'] r IH]; intros f H; [discriminate|].
+  cbn [assoc_key] in H. destruct (String.eqb k k') eqn:E.
+  - apply String.eqb_eq in E. subst. inversion H; subst. left. reflexivity.
+  - right. apply IH. exact H.
+Qed.
+
+Lemma same_map_assoc : forall a b, same_mapb a b = true -> forall k, assoc_key k a = assoc_key k b.
+Proof.
+  intros a b H k. unfold same_mapb in H. apply andb_prop in H. destruct H as [Hab Hba].
+  rewrite forallb_forall in Hab, Hba.
+  destruct (assoc_key k a) as [f|] eqn:A.
+  - specialize (Hab (k, f) (assoc_key_in k a f A)). cbn [fst snd] in Hab.
+    destruct (assoc_key k b) as [g|]; [|discriminate]. cbn in Hab. apply field_eqb_eq in Hab. subst. reflexivity.
+  - destruct (assoc_key k b) as [g|] eqn:B; [|reflexivity].
+    specialize (Hba (k, g) (assoc_key_in k b g B)). cbn [fst snd] in Hba. rewrite A in Hba. discriminate.
+Qed.
